@@ -3,6 +3,7 @@ package main
 // C09: Sorting yields an ordered permutation for every ranker.
 
 import (
+	"runtime"
 	age "github.com/craterdog/go-collection-framework/v4/agent"
 	col "github.com/craterdog/go-collection-framework/v4/collection"
 )
@@ -32,6 +33,19 @@ var sortRankers = map[string]func(a, b int) age.Rank{
 	"const":  func(a, b int) age.Rank { return age.EqualRank },
 	"lt":     func(a, b int) age.Rank { return age.LesserRank },
 	"gt":     func(a, b int) age.Rank { return age.GreaterRank },
+	// a total order computed through shared scratch fields: correct whenever one sort calls it at a time
+	"scratch": func(a, b int) age.Rank {
+		scratchA, scratchB = a, b
+		runtime.Gosched()
+		return cmpInt(scratchA, scratchB)
+	},
+	// a ranking function may answer with a value that is none of the three constants (Rank is a plain integer type)
+	"weird": func(a, b int) age.Rank {
+		if (a+b)%3 == 0 {
+			return age.Rank(3 + (a*b)%5)
+		}
+		return cmpInt(a, b)
+	},
 	"rand": func(a, b int) age.Rank {
 		switch (a*31 + b*17 + a*b) % 3 {
 		case 0:
@@ -42,7 +56,9 @@ var sortRankers = map[string]func(a, b int) age.Rank{
 		return age.GreaterRank
 	},
 }
-var rankerNames = []string{"nat", "rev", "coarse", "const", "lt", "gt", "rand", "stateful"}
+var scratchA, scratchB int
+
+var rankerNames = []string{"scratch", "nat", "rev", "coarse", "const", "lt", "gt", "rand", "stateful", "weird"}
 
 func sortLine(out *Out, caseID int, via, op, rk string, in []int) {
 	var res []int
@@ -237,5 +253,19 @@ func runC09(tier string, seed int64, out *Out) {
 		sortLine(out, caseID, via, "reverse", "nat", xs)
 		sortLine(out, caseID, via, "reverse2", "nat", xs)
 		sortLine(out, caseID, via, "shuffle", "nat", xs)
+	}
+	// large arrays (every tier): the sorter may treat them differently from small ones; rankers that are total orders,
+	// one of them keeping scratch state between the two reads of a call
+	for _, n := range []int{4095, 4096, 4097, 9000} {
+		xs := make([]int, n)
+		for i := range xs {
+			xs[i] = (i*7919 + 13) % 10007
+		}
+		for _, via := range []string{"sorter", "list"} {
+			caseID++
+			for _, rk := range []string{"scratch", "nat", "stateful"} {
+				sortLine(out, caseID, via, "sort", rk, xs)
+			}
+		}
 	}
 }
